@@ -52,7 +52,14 @@ func TestWorker(t *testing.T) {
 		if !deadline.IsZero() && time.Now().After(deadline) {
 			rep = &explore.Report{Scenario: sc.Name, Family: sc.Family, Bound: sc.Bound, BoundDone: -1, Cap: "time budget exhausted before this scenario started"}
 		} else {
-			rep = explore.Explore(t, sc, explore.Options{Deadline: deadline, KeepSample: i == 0})
+			opt := explore.Options{Deadline: deadline, KeepSample: i == 0}
+			if tier == "thorough" {
+				opt.DeepenSlice = 90 * time.Second
+				if sc.Deepen == 0 && sc.Bound > 0 && !sc.Once && sc.RawRun == nil {
+					sc.Deepen = sc.Bound + 2
+				}
+			}
+			rep = explore.Explore(t, sc, opt)
 		}
 		data, _ := json.Marshal(rep)
 		tmp := filepath.Join(out, fmt.Sprintf("rep.%d.tmp", i))
